@@ -6,7 +6,7 @@
    lexicographic merge of the two zero-skipping iterators, with the stale (i,j) of an exhausted left
    iterator) and the runner the correspondence replays.  No proofs in this file. *)
 From Coq Require Import ZArith List Bool.
-From ADV Require Import C10.Gen C10.Model.
+From ADV Require Import C10.Gen C10.Model C10.ModelMap.
 Import ListNotations.
 Open Scope Z_scope.
 
@@ -63,7 +63,9 @@ Definition mJoint (H : heap) (m b : mat) : R (list Z) :=
 End Joint.
 
 (* ---------------------------------------------------------------- one binary operation on three operands *)
-Inductive bop := BEw (f : Z) | BMdotM | BSet | BJoint.
+(* BEquals: r.Equals(a, eps) / r.EQUALS(a, eps) with BOTH sides views of one storage (shifted windows, a window and its
+   own T()): the loop of ModelMap.mEquals, no shortcut on the storage the two sides share *)
+Inductive bop := BEw (f : Z) | BMdotM | BSet | BJoint | BEquals.
 
 (* observed: the headers of r, a, b; then panic, or (result list, elements of the receiver, the whole heap) *)
 Record bobs := mkBObs { bo_res : list Z; bo_recv : option (list Z); bo_heap : list (list Z) }.
@@ -80,4 +82,5 @@ Definition run_bin (real : bool) (rows cols : Z) (vals : list Z) (r a b : operan
    | BMdotM => H' <- mMdotM real H3 mr ma mb ;; fin [] H'
    | BSet => H' <- mSet real H3 mr ma ;; fin [] H'
    | BJoint => l <- mJoint real H3 mr ma ;; fin l H3
+   | BEquals => e <- mEquals real H3 mr ma ;; fin [b2z e] H3
    end).
